@@ -1,6 +1,7 @@
 import CanvasProofs.Lemmas.C12Pdf
-import CanvasProofs.Lemmas.C12Ps
+import CanvasProofs.Lemmas.C12PsRef
 import CanvasProofs.Lemmas.C12Svg
+import CanvasProofs.Lemmas.C12Verdict
 /-!
 # C12 — SVG, PDF and PostScript output encode the drawing the rasterizer renders
 
@@ -102,9 +103,9 @@ example :
     (pdfRun (pg0 natNum) (pdfOps natNum [fillOnly halfRed 0, strokeOnly blue 1, fillOnly halfRed 2] (pw0 natNum))).2.map alphaOf
       = [some 128, some 255, some 128] := by decide
 
-/-! ### images (`pdfPageWriter.DrawImage`): `q … SetAlpha(1.0) … Do Q` -/
+/-! ### images (`pdfPageWriter.DrawImage`): `SetAlpha(1.0) q … Do Q` -/
 
-/-- an image is always painted opaque (the `gs` inside the q/Q pair works for the `Do`) -/
+/-- an image is always painted opaque -/
 theorem pdf_image_painted_opaque (k : Nat) (w : PW ν) :
     (pdfRun (gOf w.c) (pdfImage k w).2).2 = [.image k 255] := by
   unfold pdfImage setAlpha
@@ -113,30 +114,24 @@ theorem pdf_image_painted_opaque (k : Nat) (w : PW ν) :
   · have e : 255 = w.c.alpha := by simpa using h
     simp [h, pdfRun, pdfStep, gOf, PG.snap, ← e]
 
-/-- `Inv` for an image call, when the page is at alpha 1: the `Q` restores exactly the state the cache
-claims. Excluded class: an image drawn while the cached alpha is not 1 — then `SetAlpha(1.0)` is written
-INSIDE the q/Q pair, `Q` restores the old alpha in the interpreter, the cache keeps 1.0
-(recorded defect `pdf:cache-diverges:alpha:after-image`). -/
-theorem pdf_image_inv_partial (k : Nat) (w : PW ν) (h : w.c.alpha = 255) :
-    (pdfRun (gOf w.c) (pdfImage k w).2).1 = gOf (pdfImage k w).1.c := by
-  unfold pdfImage setAlpha
-  simp [h, pdfRun, pdfStep, gOf, PG.snap]
-
-/-- Full statement for images (false for the current code: `pdf_image_alpha_cache_witness`). -/
+/-- Full statement of `Inv` for an image call from ANY cache. -/
 def pdf_image_inv_statement (N : Num ν) : Prop :=
   ∀ (k : Nat) (w : PW ν), (pdfRun (gOf w.c) (pdfImage k w).2).1 = gOf (pdfImage k w).1.c
+
+/-- `Inv` for an image call (full strength since 5295a66): `q` saves and `Q` restores exactly the state the
+cache claims, because the only cached parameter DrawImage changes (alpha) is set before the `q`. -/
+theorem pdf_image_inv : pdf_image_inv_statement (ν := ν) N := by
+  intro k w
+  unfold pdfImage setAlpha
+  by_cases h : (255 != w.c.alpha) = true
+  · simp [h, pdfRun, pdfStep, gOf, PG.snap]
+  · simp [h, pdfRun, pdfStep, gOf, PG.snap]
 
 def itemOps (N : Num ν) (its : List (Item ν)) (pg : PPage ν) : List (POp ν) := (pdfItems N its pg).2.flatten
 def itemFinal (N : Num ν) (its : List (Item ν)) (pg : PPage ν) : PPage ν := (pdfItems N its pg).1
 
-/-- every image of the page is drawn while the cached alpha is 1 -/
-def ImagesAtAlphaOne (N : Num ν) : List (Item ν) → PPage ν → Prop
-  | [], _ => True
-  | .image :: rest, pg => pg.w.c.alpha = 255 ∧ ImagesAtAlphaOne N rest (pdfItem N .image pg).1
-  | .draw d :: rest, pg => ImagesAtAlphaOne N rest (pdfItem N (.draw d) pg).1
-
-/-- `Inv` for whole pages mixing path draws and images, by induction over the call list. -/
-theorem pdf_inv_items_partial (its : List (Item ν)) (pg : PPage ν) (h : ImagesAtAlphaOne N its pg) :
+/-- `Inv` for EVERY page mixing path draws and images, from any cache, by induction over the call list. -/
+theorem pdf_inv_items (its : List (Item ν)) (pg : PPage ν) :
     (pdfRun (gOf pg.w.c) (itemOps N its pg)).1 = gOf (itemFinal N its pg).w.c := by
   induction its generalizing pg with
   | nil => simp [itemOps, itemFinal, pdfItems, pdfRun]
@@ -144,37 +139,20 @@ theorem pdf_inv_items_partial (its : List (Item ν)) (pg : PPage ν) (h : Images
     cases it with
     | draw d =>
       have h1 := pdf_inv_step (N := N) d pg.w
-      have h2 := ih (pdfItem N (.draw d) pg).1 h
+      have h2 := ih (pdfItem N (.draw d) pg).1
       simp only [itemOps, itemFinal, pdfItems, pdfItem, List.flatten_cons, pdfRun_append] at *
       rw [h1, h2]
     | image =>
-      have h1 := pdf_image_inv_partial (ν := ν) pg.nimg pg.w h.1
-      have h2 := ih (pdfItem N .image pg).1 h.2
+      have h1 := pdf_image_inv (N := N) pg.nimg pg.w
+      have h2 := ih (pdfItem N .image pg).1
       simp only [itemOps, itemFinal, pdfItems, pdfItem, List.flatten_cons, pdfRun_append] at *
       rw [h1, h2]
 
-/-- the reported program: half-transparent fill, image, OPAQUE fill of the cached colour class: after the
-image the interpreter is back at alpha 128 while the cache says 255, so the opaque fill's `SetAlpha(1.0)`
-is elided and it is painted at alpha 128; the reference says 255. -/
-def imageProg : List (Item Nat) := [.draw (fillOnly halfRed 0), .image, .draw (fillOnly blue 1)]
-
-theorem pdf_image_alpha_cache_witness :
-    (pdfRun (pg0 natNum) (itemOps natNum imageProg ⟨pw0 natNum, 0⟩)).2.map alphaOf = [some 128, some 255, some 128] ∧
-    (pdfRef natNum (fillOnly blue 1)).map alphaOf = [some 255] ∧
-    (pdfRun (pg0 natNum) (itemOps natNum imageProg ⟨pw0 natNum, 0⟩)).1.ca ≠
-      (gOf (itemFinal natNum imageProg ⟨pw0 natNum, 0⟩).w.c).ca := by
-  refine ⟨by decide, by decide, by decide⟩
-
-theorem pdf_image_inv_statement_false : ¬ pdf_image_inv_statement natNum := by
-  intro h
-  have := congrArg (fun g => g.ca) (h 0 (pdfDraw natNum (fillOnly halfRed 0) (pw0 natNum)).1)
-  revert this
-  decide
-
-/-- non-vacuity: an opaque page with an image satisfies the hypothesis -/
-example : ImagesAtAlphaOne natNum [.draw (fillOnly blue 0), .image, .draw (strokeOnly black 1)] ⟨pw0 natNum, 0⟩ := by
-  simp only [ImagesAtAlphaOne]
-  exact ⟨by decide, trivial⟩
+/-- the formerly failing program (half-transparent fill, image, opaque fill): the opaque fill is painted
+at alpha 255 (regression example) -/
+example :
+    (pdfRun (pg0 natNum) (itemOps natNum [.draw (fillOnly halfRed 0), .image, .draw (fillOnly blue 1)] ⟨pw0 natNum, 0⟩)).2.map alphaOf
+      = [some 128, some 255, some 255] := by decide
 
 /-! ## PostScript -/
 
@@ -220,6 +198,58 @@ example :
     (psRun (sg0 natNum) (psOps natNum [fillOnly ⟨50, 0, 0, 128⟩ 0, fillOnly ⟨50, 0, 0, 255⟩ 1] (sw0 natNum))).2.map shadeOfItem
       = ([fillOnly ⟨50, 0, 0, 128⟩ 0, fillOnly ⟨50, 0, 0, 255⟩ 1].flatMap (psRef natNum)).map shadeOfItem := by decide
 
+/-- One `PS.RenderPath` call refines the reference from ANY well-formed cache: the interpreter (graphics state
+with current path, gsave/grestore stack) paints the fill, then the native stroke (width·s, cap, join, limit,
+dashes·width·s) or the explicit outline, in the un-premultiplied colours. Excluded class: gradient paints
+(the PostScript back-end has none: recorded finding C12-ps-gradient-as-solid). -/
+theorem ps_step_refines_partial (L : Lawful N) (d : Draw ν) (w : SW ν) (hw : PSWF w)
+    (hf : d.fill.noGrad) (hs : d.stroke.noGrad) :
+    psRun (sgOf N w) (psDraw N d w).2 = (sgOf N (psDraw N d w).1, psRef N d) ∧ PSWF (psDraw N d w).1 :=
+  psDraw_refines L d w hw hf hs
+
+/-- … lifted to every gradient-free program by induction. -/
+theorem ps_refines_partial (L : Lawful N) (ds : List (Draw ν)) (w : SW ν) (hw : PSWF w)
+    (hg : ∀ d ∈ ds, d.fill.noGrad ∧ d.stroke.noGrad) :
+    psRun (sgOf N w) (psOps N ds w) = (sgOf N (psFinal N ds w), ds.flatMap (psRef N)) := by
+  induction ds generalizing w with
+  | nil => simp [psOps, psFinal, psProg, psRun]
+  | cons d ds ih =>
+    have h := psDraw_refines L d w hw (hg d (by simp)).1 (hg d (by simp)).2
+    have h' := ih (psDraw N d w).1 h.2 (fun d' hd' => hg d' (by simp [hd']))
+    simp only [psOps, psFinal, psProg, List.flatten_cons, psRun_append, List.flatMap_cons] at *
+    rw [h.1, h']
+
+/-- Full statement (false for the current code: `ps_gradient_witness`). -/
+def ps_refines_statement (N : Num ν) : Prop :=
+  ∀ ds : List (Draw ν), (psRun (sg0 N) (psOps N ds (sw0 N))).2 = ds.flatMap (psRef N)
+
+theorem ps_refines_from_start_partial (L : Lawful N) (ds : List (Draw ν))
+    (hg : ∀ d ∈ ds, d.fill.noGrad ∧ d.stroke.noGrad) :
+    (psRun (sg0 N) (psOps N ds (sw0 N))).2 = ds.flatMap (psRef N) := by
+  have e : sg0 N = sgOf N (sw0 N) := by
+    simp [sg0, sgOf, sw0, Paint.nrgb, psJoinCode, (L.beq_iff _ _).2 rfl]
+  rw [e, ps_refines_partial L ds (sw0 N) (by intro g l h; simp [sw0] at h) hg]
+
+/-- non-vacuity: a two-call colour program satisfies the hypotheses -/
+example : ∀ d ∈ [fillOnly halfRed 0, strokeOnly blue 1], d.fill.noGrad ∧ d.stroke.noGrad := by
+  intro d hd
+  simp at hd
+  rcases hd with rfl | rfl <;> exact ⟨trivial, trivial⟩
+
+/-- a gradient fill: PostScript output paints it black, the reference is the gradient -/
+def gradFill : Draw Nat := { fillOnly black 0 with fill := .grad 7 }
+
+theorem ps_gradient_witness :
+    (psRun (sg0 natNum) (psOps natNum [gradFill] (sw0 natNum))).2.map shadeOfItem = [some (.rgb 0 0 0 255)] ∧
+    ([gradFill].flatMap (psRef natNum)).map shadeOfItem = [some (.pat 7)] := by
+  constructor <;> decide
+
+theorem ps_refines_statement_false : ¬ ps_refines_statement natNum := by
+  intro h
+  have := congrArg (List.map shadeOfItem) (h [gradFill])
+  rw [ps_gradient_witness.1, ps_gradient_witness.2] at this
+  exact absurd this (by decide)
+
 /-! ## SVG -/
 
 /-- Full statement for SVG. -/
@@ -238,6 +268,23 @@ theorem svg_program_refines (ds : List (Draw ν)) (h : ∀ d ∈ ds, d.cap ≤ 2
     simp only [List.flatMap_cons]
     rw [svg_refines d (h d (by simp)), ih (fun d' hd' => h d' (by simp [hd']))]
 
+/-- every `url(#p…)` written by a call refers to a gradient whose `<defs>` this or an earlier call has written
+(hypothesis: a drawn stroke also has a positive unscaled width, true for every scale factor ≥ 0) -/
+theorem svg_gradient_refs_defined (d : Draw ν) (pats : List Nat)
+    (hsc : d.hasStroke N d.join.svgOk = true → N.lt N.zero d.width = true) :
+    ∀ e ∈ svgDraw N d, ∀ i ∈ elemGrads e, i ∈ (svgDefs N d pats).1 :=
+  svg_refs_defined d pats hsc
+
+/-- the gradient table only grows: ids handed out earlier stay valid -/
+theorem svg_table_grows (d : Draw ν) (pats : List Nat) : ∀ i ∈ pats, i ∈ (svgDefs N d pats).1 := by
+  intro i hi
+  unfold svgDefs
+  exact svgRegister_sub _ _ _ i (svgRegister_sub _ _ (pats, []) i hi)
+
+/-- non-vacuity: a gradient stroke of width 1 under scale 1 satisfies the hypothesis and references gradient 3 -/
+example : (svgDraw natNum { strokeOnly black 0 with stroke := .grad 3 }).flatMap elemGrads = [3] ∧
+    (svgDefs natNum { strokeOnly black 0 with stroke := .grad 3 } []).1 = [3] := by decide
+
 def evenOddOf : Painted Nat → Option Bool
   | .fill _ eo _ _ => some eo
   | _ => none
@@ -245,5 +292,34 @@ def evenOddOf : Painted Nat → Option Bool
 /-- the former even-odd outline instance (miter-clip joiner, EvenOdd): the outline is filled NonZero -/
 example : (svgRun natNum (svgDraw natNum { strokeOnly black 0 with join := .miter 2 (some 4), evenOdd := true })).map evenOddOf
     = [some false] := by decide
+
+/-! ## the verdict on real PDF token streams (`PDFV` lines, decided by `Verdict.matchItems`) -/
+open Canvas.C12.Verdict in
+/-- SOUNDNESS of the verdict: "no difference" means the observed items are as many as the expected ones and
+agree pairwise in kind, path (drawn path / explicit outline), fill rule resp. closing operator, colour
+(device colour component-wise close, pattern names consistently bound), alpha and — for strokes — width, cap,
+join, miter limit, dash array and phase, up to the closeness predicate. -/
+theorem verdict_sound {close : ν → ν → Bool} (b : Bind) (es os : List (TItem ν))
+    (h : (matchItems close b es os).1 = none) : AllAgree close b es os ∧ es.length = os.length :=
+  ⟨matchItems_sound b es os h, matchItems_length b es os h⟩
+
+open Canvas.C12.Verdict in
+/-- an `invalid` observation (unknown operator, operand error, undefined resource, Q without q) is never accepted -/
+theorem verdict_rejects_invalid {close : ν → ν → Bool} (b : Bind) (es os : List (TItem ν)) (why : String) :
+    (matchItems close b es (.invalid why :: os)).1 ≠ none :=
+  matchItems_invalid b es why os
+
+open Canvas.C12.Verdict in
+/-- MONOTONE in the tolerance: accepting under `close` implies accepting under any weaker `close'` -/
+theorem verdict_mono {close close' : ν → ν → Bool} (hm : ∀ x y, close x y = true → close' x y = true)
+    (b : Bind) (es os : List (TItem ν)) (h : (matchItems close b es os).1 = none) :
+    (matchItems close' b es os).1 = none :=
+  matchItems_mono hm b es os h
+
+open Canvas.C12.Verdict in
+/-- exact observations of device-colour items are accepted by every reflexive closeness predicate -/
+theorem verdict_accepts_exact {close : ν → ν → Bool} (hr : ∀ x, close x x = true) (b : Bind) (es : List (TItem ν))
+    (hp : ∀ e ∈ es, plainItem e) : (matchItems close b es es).1 = none :=
+  matchItems_refl hr b es hp
 
 end C12
